@@ -886,11 +886,24 @@ Proof.
   destruct w; reflexivity.
 Qed.
 
+(* the event puts a record with key rk into the store: store_record, the local half of put_record, or —
+   with automatic validation — a PUT_VALUE of a remote peer read from an inbound substream *)
+Definition stores (wc : wcfg) (w : world) (u : uev) (rk : N) : Prop :=
+  u = UStoreRecord rk \/ (exists q0 qr0 t0, u = UCmd q0 (UCPut qr0 rk) t0) \/
+  (wc_vauto wc = true /\ exists id, u = UInReq id (IPutValue rk) /\ inbound_read (w_st w) id = true).
+
+Lemma stores_put : forall wc w u rk, stores wc w u rk ->
+  snd (elab wc w u) = S.put (wc_scfg wc) (w_store w) (local_record wc rk).
+Proof.
+  intros wc w u rk [-> | [(q0 & qr0 & t0 & ->) | (Hm & id & -> & Hr)]]; try reflexivity.
+  rewrite <- cstep_store. apply auto_validation; assumption.
+Qed.
+
 (* a record this node stored is found by every later GetRecord(Quorum::One) without the network *)
 Lemma put_then_get : forall wc m L us1 u us2 q rk target,
   1 <= wc_ttl wc -> REC_LEN < S.max_size (wc_scfg wc) ->
   N.of_nat (length (us1 ++ u :: us2)) <= S.max_records (wc_scfg wc) ->
-  (u = UStoreRecord rk \/ exists q0 qr0 t0, u = UCmd q0 (UCPut qr0 rk) t0) ->
+  stores wc (fst (crun wc (w0 wc m L) us1)) u rk ->
   let w := fst (crun wc (w0 wc m L) (us1 ++ u :: us2)) in
   fst (cstep wc w (UCmd q (UCGet QOne rk) target)) =
   (w, [OPartial q (g_local (wc_g wc)) LOCAL_REC; OGetRecSuccess q]).
@@ -901,8 +914,7 @@ Proof.
   set (w1 := fst (crun wc (w0 wc m L) us1)) in *.
   assert (St : stored (w_store (fst (fst (cstep wc w1 u)))) rk).
   { rewrite cstep_store.
-    assert (E : snd (elab wc w1 u) = S.put (wc_scfg wc) (w_store w1) (local_record wc rk)).
-    { destruct Hu as [-> | (q0 & qr0 & t0 & ->)]; reflexivity. }
+    assert (E : snd (elab wc w1 u) = S.put (wc_scfg wc) (w_store w1) (local_record wc rk)) by (apply stores_put; exact Hu).
     rewrite E. change rk with (S.r_key (local_record wc rk)) at 2. apply put_stored; [exact Hsz |].
     rewrite app_length in Hn. cbn [length] in *. cbn in L1. lia. }
   assert (Ew : w = fst (crun wc (fst (fst (cstep wc w1 u))) us2)).
@@ -1212,7 +1224,7 @@ Qed.
 Lemma stored_after_put : forall wc m L us1 u us2 rk,
   1 <= wc_ttl wc -> REC_LEN < S.max_size (wc_scfg wc) ->
   N.of_nat (length (us1 ++ u :: us2)) <= S.max_records (wc_scfg wc) ->
-  (u = UStoreRecord rk \/ exists q0 qr0 t0, u = UCmd q0 (UCPut qr0 rk) t0) ->
+  stores wc (fst (crun wc (w0 wc m L) us1)) u rk ->
   let w := fst (crun wc (w0 wc m L) (us1 ++ u :: us2)) in
   SI wc (w_store w) /\ stored (w_store w) rk.
 Proof.
@@ -1222,8 +1234,7 @@ Proof.
   set (w1 := fst (crun wc (w0 wc m L) us1)) in *.
   assert (St : stored (w_store (fst (fst (cstep wc w1 u)))) rk).
   { rewrite cstep_store.
-    assert (E : snd (elab wc w1 u) = S.put (wc_scfg wc) (w_store w1) (local_record wc rk)).
-    { destruct Hu as [-> | (q0 & qr0 & t0 & ->)]; reflexivity. }
+    assert (E : snd (elab wc w1 u) = S.put (wc_scfg wc) (w_store w1) (local_record wc rk)) by (apply stores_put; exact Hu).
     rewrite E. change rk with (S.r_key (local_record wc rk)) at 2. apply put_stored; [exact Hsz |].
     rewrite app_length in Hn. cbn [length] in *. cbn in L1. lia. }
   assert (Ew : w = fst (crun wc (fst (fst (cstep wc w1 u))) us2)).
@@ -1235,7 +1246,7 @@ Qed.
 Lemma serve_after_put : forall wc m L us1 u us2 rk id target,
   1 <= wc_ttl wc -> REC_LEN < S.max_size (wc_scfg wc) ->
   N.of_nat (length (us1 ++ u :: us2)) <= S.max_records (wc_scfg wc) ->
-  (u = UStoreRecord rk \/ exists q0 qr0 t0, u = UCmd q0 (UCPut qr0 rk) t0) ->
+  stores wc (fst (crun wc (w0 wc m L) us1)) u rk ->
   let w := fst (crun wc (w0 wc m L) (us1 ++ u :: us2)) in
   inbound_read (w_st w) id = true ->
   reply_of wc w (UInReq id (IGetValue rk target)) = Some (true, seeds_of wc (w_rt w) target).
